@@ -8,14 +8,14 @@
      the specification semantics — for every prefix of the sequence of solve() calls.
    STRENGTH: PARTIAL.  (a) C01_solve_sound_partial is about an ABSTRACT transition system that
    over-approximates the elimination chain of solve(); SMT elimination, semantic predicates, tree
-   insertion, universal numeric quantifiers, removal of universals over open in-trees and early
-   instantiation of consecutive/level are PREMISES (sound_rel hypotheses).  (b) The full statement is
+   insertion, universal numeric quantifiers and removal of universals over open in-trees are
+   PREMISES (sound_rel hypotheses).  (b) The full statement is
    REFUTED for constraints with nth (C01_eval_unsound_nth: the evaluation step the code performs
    without a stability side condition adds a non-solution; reproduced on the implementation, known
    finding K_nth) and, on the implementation, for count (K_count, inside the premise H_sem).
    (c) The tie to /repo is the runtime check of every returned tree by sol_check
    (C01_checked_solution_valid / _complete). *)
-From ISLA Require Import SolveSound.
+From ISLA Require Import PredStable.
 
 (* ---- runtime acceptance check ---- *)
 Theorem C01_checked_solution_valid : forall g start cst f t,
@@ -60,6 +60,19 @@ Theorem C01_stable_path_only : forall t b n args,
 Proof. exact stable_path_only. Qed.
 Print Assumptions C01_stable_path_only.
 
+(* ... for EVERY binary structural predicate (the six above and consecutive) and for level, on
+   variables bound to positions of the state tree ... *)
+Theorem C01_stable_pred2 : forall t b n a1 a2, arg_valid t b a1 -> arg_valid t b a2 ->
+  stable t b (FSPred n [a1; a2]) /\ stable t b (FNot (FSPred n [a1; a2])).
+Proof. exact stable_pred2. Qed.
+Print Assumptions C01_stable_pred2.
+
+Theorem C01_stable_level : forall t b op nt a2 a3, arg_valid t b a2 -> arg_valid t b a3 ->
+  stable t b (FSPred s_level [PStr op; PStr nt; a2; a3]) /\
+  stable t b (FNot (FSPred s_level [PStr op; PStr nt; a2; a3])).
+Proof. exact stable_level. Qed.
+Print Assumptions C01_stable_level.
+
 (* ... and for SMT atoms over closed subtrees *)
 Theorem C01_stable_smt_closed : forall t b a,
   vars_closed t b (satom_vars a) -> stable t b (FSmt a) /\ stable t b (FNot (FSmt a)).
@@ -82,12 +95,12 @@ Print Assumptions C01_match_stable.
 (* ---- the abstract solver ---- *)
 Theorem C01_solve_sound_partial :
   forall (g : grammar)
-         (smt_step sem_step insert_step numq_step infeasible_step predinst_step : cstate -> cstate -> Prop),
+         (smt_step sem_step insert_step numq_step infeasible_step : cstate -> cstate -> Prop),
     sound_rel g smt_step -> sound_rel g sem_step -> sound_rel g insert_step ->
-    sound_rel g numq_step -> sound_rel g infeasible_step -> sound_rel g predinst_step ->
+    sound_rel g numq_step -> sound_rel g infeasible_step ->
     forall start i0 cst phi s,
       is_nt start = true -> defined g start = true ->
-      reachable g smt_step sem_step insert_step numq_step infeasible_step predinst_step
+      reachable g smt_step sem_step insert_step numq_step infeasible_step
                 (init_state start i0 cst phi) s ->
       final s -> valid_solution g start cst phi (snd s).
 Proof. exact solve_sound_partial. Qed.
@@ -95,7 +108,7 @@ Print Assumptions C01_solve_sound_partial.
 
 Example C01_solve_sound_nonvacuous :
   let R := RunExample.none in
-  reachable RunExample.g R R R R R R (init_state RunExample.nt_s 0 RunExample.cst RunExample.phi)
+  reachable RunExample.g R R R R R (init_state RunExample.nt_s 0 RunExample.cst RunExample.phi)
             ([], RunExample.t1) /\
   final ([], RunExample.t1) /\ sound_rel RunExample.g R.
 Proof. exact solve_sound_example. Qed.
